@@ -5,6 +5,7 @@
 -/
 import W2c2Verif.Lemmas.PoolPartition
 import W2c2Verif.Lemmas.PoolSplit
+import W2c2Verif.Lemmas.PoolFinal
 
 namespace W2c2Verif.Props.C09
 open W2c2Verif.Model
@@ -97,5 +98,145 @@ theorem split_empty_ref (ids : List FnId) : split ids [] = ([], ids) := split_ni
 open Split in
 example : split [⟨1, 0⟩, ⟨5, 2⟩, ⟨5, 3⟩, ⟨9, 1⟩] [⟨2, 0⟩, ⟨5, 1⟩, ⟨9, 2⟩, ⟨9, 3⟩] =
     ([⟨5, 2⟩, ⟨9, 1⟩], [⟨1, 0⟩, ⟨5, 3⟩]) := by simp [split]
+
+/-! ## worker pool (c.c: wasmCImplementationWriterThread / wasmCWriteModuleImplementationFiles)
+
+  `Pool.Reachable cfg s`: `s` is reachable under SOME interleaving of the producer and the `cfg.N` workers,
+  including spurious returns of `pthread_cond_wait`; the theorems hold for every reachable state, i.e. for
+  every interleaving, every `N ≥ 1`, every number of tasks `cfg.K` and every `startOf`. -/
+
+open Pool in
+/-- **Every task is executed exactly once, with the field values the producer set for it.**
+    In every reachable state: no file index has been written twice; every file written was written by one of
+    the workers, for an index `i < K`, with exactly the start index the producer computed for `i`
+    (`startOf i` stands for all fields stored next to `fileIndex`).  When the producer has returned: the file
+    indices written are a permutation of `0, …, K−1`, all workers have returned, slot empty. -/
+theorem pool_exactly_once (cfg : Cfg) (hN : 1 ≤ cfg.N) (s : Sh × (Tid → Loc)) (hr : Reachable cfg s) :
+    (s.1.ex.map (·.2.1)).Nodup ∧
+    (∀ e, e ∈ s.1.ex → e.2.1 < cfg.K ∧ e.2.2 = cfg.startOf e.2.1 ∧ 1 ≤ e.1 ∧ e.1 ≤ cfg.N) ∧
+    (Final s → (s.1.ex.map (·.2.1)).Perm (List.range cfg.K) ∧ s.1.taskSet = false ∧
+      ∀ w : Nat, 1 ≤ w → w ≤ cfg.N → (s.2 w).pc = .wret) := by
+  obtain ⟨I, P, _⟩ := live_reach hN hr
+  have hnd : (pend s.2 cfg.N ++ s.1.ex.map (·.2.1)).Nodup := (P.nodup_iff).mpr (tk_nodup I.tkseq)
+  refine ⟨(List.nodup_append.mp hnd).2.1, ?_, ?_⟩
+  · intro e he
+    have hv := I.exv e he
+    refine ⟨?_, hv.1, hv.2.1, hv.2.2⟩
+    have hmem : e.2.1 ∈ s.1.tk := P.subset (List.mem_append_right _ (List.mem_map.mpr ⟨e, he, rfl⟩))
+    exact Nat.lt_of_lt_of_le (mem_tk_lt I.tkseq hmem) (tk_length_le I)
+  · intro hf
+    have hf' : (s.2 0).pc = .pend := hf
+    have hdone := (I.dn2 (Or.inr (Or.inr hf'))).1
+    have hts := (I.dn1 hdone).1
+    have hK : s.1.tk.length = cfg.K := by
+      have hpub := I.pub
+      have hfi := I.fiK.2.2 (by rw [hf']; rfl)
+      rw [hf', hts] at hpub
+      simp [b2n, PC.published] at hpub
+      omega
+    refine ⟨?_, hts, fun w h1 h2 => I.ret1 w (I.join.2 hf' w h1 h2)⟩
+    have hp : pend s.2 cfg.N = [] := pend_final I hf' cfg.N (Nat.le_refl _)
+    unfold PInv at P
+    rw [hp, List.nil_append] at P
+    have htk := I.tkseq
+    rw [hK] at htk
+    rw [← htk] at P
+    exact P.trans (List.reverse_perm _)
+
+open Pool in
+/-- **No torn task.** Two threads are never simultaneously at statements that run under the mutex; every
+    statement that reads or writes `writer->task`, the fields of `*task` or `writer->done` is such a statement
+    (`accessesTask_holds`).  Hence a worker never reads the task while the producer writes it.  (That the values
+    read belong to ONE task is the second clause of `pool_exactly_once`.) -/
+theorem pool_no_torn_task (cfg : Cfg) (hN : 1 ≤ cfg.N) (s : Sh × (Tid → Loc)) (hr : Reachable cfg s) (t u : Nat)
+    (ht : (s.2 t).pc.accessesTask = true ∨ (s.2 t).pc.holds = true)
+    (hu : (s.2 u).pc.accessesTask = true ∨ (s.2 u).pc.holds = true) : t = u := by
+  obtain ⟨I, _, _⟩ := live_reach hN hr
+  have h1 : (s.2 t).pc.holds = true := ht.elim (accessesTask_holds _) id
+  have h2 : (s.2 u).pc.holds = true := hu.elim (accessesTask_holds _) id
+  have a := (I.mx t).mp h1
+  have b := (I.mx u).mp h2
+  rw [a] at b
+  exact Option.some.inj b
+
+open Pool in
+/-- **Deadlock freedom.** Every reachable state in which the producer has not returned has an enabled
+    transition that is NOT a spurious wake-up (`step false`): nobody's progress depends on one.  (And when the
+    producer has returned, everything is done: last clause of `pool_exactly_once`.) -/
+theorem pool_deadlock_free (cfg : Cfg) (hN : 1 ≤ cfg.N) (s : Sh × (Tid → Loc)) (hr : Reachable cfg s) :
+    Final s ∨ ∃ t : Nat, step false cfg t s.1 (s.2 t) ≠ [] := by
+  obtain ⟨I, _, D⟩ := live_reach hN hr
+  obtain ⟨g, ls⟩ := s
+  -- a worker that is neither returned nor parked-unsignalled moves as soon as the mutex is free
+  have worker_moves : g.mutex = none → ∀ w : Nat, 1 ≤ w → (ls w).pc ≠ .wret →
+      ¬ ((ls w).pc = .w3p ∧ w ∈ g.consume) → step false cfg w g (ls w) ≠ [] := by
+    intro hm w h1 hr' hp
+    refine worker_enabled cfg w g (ls w) hm (I.roleW w h1) ?_ hr' hp
+    cases hh : (ls w).pc.holds with
+    | false => rfl
+    | true => have := (I.mx w).mp hh; rw [hm] at this; cases this
+  cases hm : g.mutex with
+  | some t => exact Or.inr ⟨t, holder_enabled cfg t g (ls t) ((I.mx t).mpr hm)⟩
+  | none =>
+    have hnh : (ls 0).pc.holds = false := by
+      cases hh : (ls 0).pc.holds with
+      | false => rfl
+      | true => have := (I.mx 0).mp hh; rw [hm] at this; cases this
+    have h0 := I.role0
+    -- the producer's own step, where it has one
+    by_cases hprod : step false cfg 0 g (ls 0) ≠ []
+    · exact Or.inr ⟨0, hprod⟩
+    · have hprod' : step false cfg 0 g (ls 0) = [] := Classical.not_not.mp hprod
+      cases hpc : (ls 0).pc <;> simp [hpc, PC.holds, PC.isProducer, PC.isWorker] at hnh h0
+      all_goals simp [step, hpc, hm, wake] at hprod'
+      · -- p3p: parked on `produce`, not signalled
+        rcases D.owe hprod' with ⟨_, w, h1, _, ha⟩ | ⟨w, h1, _, ho⟩
+        · exact Or.inr ⟨w, worker_moves hm w h1 ha.1 ha.2⟩
+        · refine Or.inr ⟨w, worker_moves hm w h1 ?_ ?_⟩
+          · rcases ho with h | h | h | h <;> rw [h] <;> decide
+          · rintro ⟨h3, _⟩; rcases ho with h | h | h | h <;> rw [h] at h3 <;> cases h3
+      · -- p10p
+        rcases D.owe hprod' with ⟨_, w, h1, _, ha⟩ | ⟨w, h1, _, ho⟩
+        · exact Or.inr ⟨w, worker_moves hm w h1 ha.1 ha.2⟩
+        · refine Or.inr ⟨w, worker_moves hm w h1 ?_ ?_⟩
+          · rcases ho with h | h | h | h <;> rw [h] <;> decide
+          · rintro ⟨h3, _⟩; rcases ho with h | h | h | h <;> rw [h] at h3 <;> cases h3
+      · -- p14: joining worker j, which has not returned
+        obtain ⟨hj1, _⟩ := I.join.1 hpc
+        have hcons := (I.dn2 (Or.inr (Or.inl hpc))).2
+        have hjN : ¬ cfg.N < (ls 0).j := by
+          intro h; rw [if_pos h] at hprod'; cases hprod'
+        rw [if_neg hjN] at hprod'
+        have hjr : (ls 0).j ∉ g.returned := by
+          intro h; rw [if_pos h] at hprod'; cases hprod'
+        refine Or.inr ⟨(ls 0).j, worker_moves hm _ hj1 ?_ ?_⟩
+        · intro hret
+          exact hjr (I.ret2 _ hj1 (Nat.le_of_not_lt hjN) hret).1
+        · rintro ⟨_, hin⟩; rw [hcons] at hin; cases hin
+      · -- pend
+        exact Or.inl hpc
+
+/-- 2 workers, 3 tasks: worker 1 does all the work, worker 2 only starts up and shuts down -/
+def exampleSchedule : List (Tid × Nat) :=
+  let one : List (Tid × Nat) := List.replicate 10 (0, 0) ++ List.replicate 11 (1, 0)
+  one ++ one ++ one ++ List.replicate 7 (0, 0) ++ List.replicate 5 (1, 0) ++ List.replicate 5 (2, 0) ++
+    List.replicate 4 (0, 0)
+
+def exampleCfg : Pool.Cfg := { N := 2, K := 3, startOf := fun i => 2 * i }
+
+def exampleCheck : Bool :=
+  match runSched (Pool.sys exampleCfg) exampleSchedule (Pool.initState exampleCfg) with
+  | some s => decide ((s.2 0).pc = .pend) && decide (s.1.ex.map (·.2.1) = [2, 1, 0])
+  | none => false
+
+/-- the hypotheses are satisfiable and the model runs to completion -/
+example : ∃ s, Pool.Reachable exampleCfg s ∧ Pool.Final s ∧ s.1.ex.map (·.2.1) = [2, 1, 0] := by
+  have h : exampleCheck = true := by decide
+  unfold exampleCheck at h
+  split at h
+  · rename_i s hs
+    simp only [Bool.and_eq_true, decide_eq_true_eq] at h
+    exact ⟨s, runSched_reach _ _ _ Reach.init hs, h.1, h.2⟩
+  · cases h
 
 end W2c2Verif.Props.C09
